@@ -124,7 +124,20 @@ pub fn scenario(g: &mut G, ctx: &RunCtx) -> RunReport {
             Some((format!("{}{}charset={}", g.pick(&["text/html", "application/json", "text/plain"]), sep, lab), Some(e)))
         }
     };
-    let default_cs: Option<&'static Encoding> = if g.chance(1, 2) { Some(Encoding::for_label(g.pick(LABELS).as_bytes()).unwrap()) } else { None };
+    // default charset: on the session, on the request (which wins), both, or neither
+    let session_cs: Option<&'static Encoding> = if g.chance(1, 3) { Some(Encoding::for_label(g.pick(LABELS).as_bytes()).unwrap()) } else { None };
+    let request_cs: Option<Option<&'static Encoding>> = match g.below(4) {
+        0 | 1 => None,
+        2 => Some(Some(Encoding::for_label(g.pick(LABELS).as_bytes()).unwrap())),
+        _ => Some(None),
+    };
+    if session_cs.is_some() && request_cs.is_some() {
+        g.probe("request-default-charset-overrides-session");
+    }
+    let default_cs: Option<&'static Encoding> = match request_cs {
+        Some(v) => v,
+        None => session_cs,
+    };
     let sizes = |g: &mut G| -> Vec<usize> {
         match g.below(5) {
             0 => vec![1],
@@ -151,11 +164,15 @@ pub fn scenario(g: &mut G, ctx: &RunCtx) -> RunReport {
         headers.push(((*g.pick(&["Content-Type", "content-type"])).to_string(), ct.clone().into_bytes()));
     }
     let plan = bodyx::plan_from_payload(g, payload.clone(), headers);
-    let run_api = |api: Api, default_cs: Option<&'static Encoding>| {
+    let run_api = |api: Api, _default_cs: Option<&'static Encoding>| {
         move || -> Result<String, String> {
-            let mut rb = attohttpc::get(format!("http://{}/t", bodyx::HOST_IP));
-            if default_cs.is_some() {
-                rb = rb.default_charset(default_cs);
+            let mut session = attohttpc::Session::new();
+            if session_cs.is_some() {
+                session.default_charset(session_cs);
+            }
+            let mut rb = session.get(format!("http://{}/t", bodyx::HOST_IP));
+            if let Some(v) = request_cs {
+                rb = rb.default_charset(v);
             }
             let resp = rb.send().map_err(|e| format!("send:{}", err_kind(&e)))?;
             let read_all = |mut r: Box<dyn Read>, sizes: &[usize]| -> Result<String, String> {
